@@ -150,6 +150,37 @@ def run_dag_config(acc, shape, entry, gsel, rsel, om, runner, fault):
     return w
 
 
+def derived_scope_history(acc, shape, entry, runner):
+    """Run the un-scoped graph first, THEN derive the scoped graph from that very object and run it:
+    a scope computed for the parent must not survive into the derived graph."""
+    from ..dsl import build
+
+    exts, consumed, outs = shape_names(shape)
+    prog, provided = dag_program(shape, {e: frozenset("P") for e in exts}, set(), is_async=(runner == "async"))
+    anc, prod = ancestors(shape)
+    h = H()
+    g = build(prog, h)
+    x0 = execute(prog, provided, runner=runner, h=h, graph=g)
+    act = _active(shape, entry)
+    inputs = {}
+    for j in act:
+        for p in shape[j][0]:
+            if not (p in prod and prod[p] in act):
+                inputs[p] = ["prov2", p]
+    g2 = g.with_entrypoint(*[prog["nodes"][j]["id"] for j in entry])
+    n0 = len(h.calls)
+    x = execute(prog, inputs, runner=runner, h=h, graph=g2)
+    acc.evaluations += 2
+    ran = {c.nid for c in h.calls[n0:]}
+    active_ids = {prog["nodes"][j]["id"] for j in act}
+    if not ran <= active_ids:
+        acc.violation(
+            {"symptom": "node-outside-entry-scope-ran", "history": "run-then-derive"},
+            {"kind": "derived", "program": prog, "entry": list(entry), "runner": runner},
+            f"after running the un-scoped graph, the graph derived with_entrypoint({[prog['nodes'][j]['id'] for j in entry]}) ran {sorted(ran - active_ids)} outside its scope",
+        )
+
+
 def special(acc, tier):
     from hypergraph.cache import InMemoryCache
 
@@ -241,6 +272,9 @@ def run_shard(shard):
             if om == "ignore" and (gsel is not None or rsel not in ("unset",)):
                 act = sorted(range(len(shape)) if entry is None else _active(shape, entry))
                 faults += act[-1:]
+            if entry is not None and gsel is None and rsel == "unset" and om == "ignore":
+                derived_scope_history(acc, shape, entry, runner)
+                acc.key((tuple(shape), entry, "run-then-derive", runner))
             for fault in faults:
                 w = run_dag_config(acc, shape, entry, gsel, rsel, om, runner, fault)
                 if entry is not None or gsel is not None or rsel != "unset":
@@ -256,6 +290,11 @@ def coverage_extra(acc, tier, seed):
 
 def replay(rep):
     acc = Acc()
+    if rep["kind"] == "derived":
+        prog = rep["program"]
+        shape = [(tuple(sorted(s["params"])), len(s["outs"])) for s in prog["nodes"]]
+        derived_scope_history(acc, shape, tuple(rep["entry"]), rep["runner"])
+        return [v["message"] for v in acc.violations.values()]
     if rep["kind"] != "dag":
         special(acc, "quick")
         return [v["message"] for v in acc.violations.values()]
